@@ -220,6 +220,28 @@ slab_e (int which, int len, int term)
   round_trip ("pw", 2, S, hm[which], len % 16 == 0, rp);
 }
 
+/* (i) salts that look like the method's own option field, behind every spelling of that field (explicit default value
+   included): the canonical form of the result must still parse back into the same options and the same salt */
+static const char *const iheads[] = { "$5$", "$5$rounds=1000$", "$5$rounds=1001$", "$5$rounds=4999$", "$5$rounds=5000$", "$5$rounds=5001$", "$5$rounds=9999$",
+  "$6$", "$6$rounds=1000$", "$6$rounds=1001$", "$6$rounds=4999$", "$6$rounds=5000$", "$6$rounds=5001$", "$6$rounds=9999$",
+  "$1$", "$md5$", "$md5,rounds=0$", "$md5,rounds=1$", "$md5,rounds=904$", "$sha1$1$", "$sha1$100$", "$sha1$1000$" };
+static const int ihm[] = { M_SHA256, M_SHA256, M_SHA256, M_SHA256, M_SHA256, M_SHA256, M_SHA256, M_SHA512, M_SHA512, M_SHA512, M_SHA512, M_SHA512, M_SHA512, M_SHA512,
+  M_MD5, M_SUNMD5, M_SUNMD5, M_SUNMD5, M_SUNMD5, M_SHA1, M_SHA1, M_SHA1 };
+static const char *const isalts[] = { "rounds=1234", "rounds=", "rounds=x", "rounds=5000", "rounds=1000", "rounds=999", "rounds=99999999999999999999", "rounds", "rounds=12$ab",
+  "rounds=5000$rounds=7", ",rounds=5", "rounds=1,x", "1234", "100", "", "rounds=0", "rounds=4096" };
+#define NIHEAD ((int) (sizeof iheads / sizeof *iheads))
+#define NISALT ((int) (sizeof isalts / sizeof *isalts))
+static void
+slab_i (int hd, int sa, int term)
+{
+  static const char *const terms[] = { "", "$", "$$" };
+  char S[200], rp[64];
+  snprintf (S, sizeof S, "%s%s%s", iheads[hd], isalts[sa], terms[term]);
+  snprintf (rp, sizeof rp, "i:%d:%d:%d", hd, sa, term);
+  round_trip ("pw", 2, S, ihm[hd], 1, rp);
+  vh_stat ("option_lookalike_salts", 1);
+}
+
 static const char *const wide_rounds[4] = { "$6$rounds=10000000$ab", "$5$rounds=10000000$ab", "$6$rounds=100000000$ab", "$5$rounds=100000000$ab" };
 
 int
@@ -244,6 +266,8 @@ main (int argc, char **argv)
         slab_c (a, b, c);
       else if (sscanf (vh_replay, "e:%d:%d:%d", &a, &b, &c) == 3)
         slab_e (a, b, c);
+      else if (sscanf (vh_replay, "i:%d:%d:%d", &a, &b, &c) == 3 && a >= 0 && a < NIHEAD && b >= 0 && b < NISALT && c >= 0 && c < 3)
+        slab_i (a, b, c);
       else if (sscanf (vh_replay, "h:%d", &a) == 1 && a >= 0 && a < 4)
         round_trip ("pw", 2, wide_rounds[a], a % 2 ? M_SHA256 : M_SHA512, 0, vh_replay);
       else if (mode_c06 && !strncmp (vh_replay, "div:", 4))
@@ -303,6 +327,12 @@ main (int argc, char **argv)
             slab_e (which, len, term);
     }
   vh_stat ("slab_e_done", 1);
+  for (int hd = 0; hd < NIHEAD && !vh_expired (); hd++)
+    for (int sa = 0; sa < NISALT; sa++)
+      for (int term = 0; term < 3; term++)
+        if (vh_mine (idx++))
+          slab_i (hd, sa, term);
+  vh_stat ("slab_i_done", 1);
   {
     /* the widest spellings of a decimal cost field: eight digits (3 s of CPU per hash) in both tiers, nine digits (half a
        minute per hash) in the thorough tier only */
